@@ -1,0 +1,24 @@
+//go:build verif
+
+package badgerstore
+
+import "sync/atomic"
+
+// This file is only compiled with the "verif" build tag. See verif_on.go in
+// the root package.
+
+var verifHook atomic.Value // of func(point string, arg interface{})
+
+// SetVerifHook installs a callback invoked at every instrumentation point.
+func SetVerifHook(f func(point string, arg interface{})) {
+	if f == nil {
+		f = func(string, interface{}) {}
+	}
+	verifHook.Store(f)
+}
+
+func verifPoint(point string, arg interface{}) {
+	if f, ok := verifHook.Load().(func(string, interface{})); ok {
+		f(point, arg)
+	}
+}
